@@ -247,7 +247,14 @@ class C09(Prop):
             snaps.append(s)
         pusher = threading.current_thread().name
         for s in snaps:
-            ps.push_snapshot(s)
+            try:
+                ps.push_snapshot(s)
+            except BaseException as e:      # noqa
+                out.violate('push_snapshot raised %s' % type(e).__name__)
+                for g in gates.values():
+                    g.set()
+                th._pool.shutdown(wait=True)
+                return out
         order = sorted(range(len(snaps)), key=lambda i: recipe['order'][i])
         k = min(recipe['release_before_flush'], len(snaps))
         for i in order[:k]:
